@@ -140,21 +140,22 @@ type Engine struct {
 	Trace []Op
 	Disc  []Discrepancy
 
-	m        map[string]*mcert
-	locked   bool   // the shim's lock flag (model)
-	klocked  bool   // the keyring's own lock state (known: the harness performs every direct operation)
-	kpass    []byte // passphrase the keyring is locked with
-	snapOK   bool   // no direct manipulation happened since the shim was locked
-	preLock  []ident
-	lastU    []ident
-	closed   bool
-	hung     bool
-	dbgSeen  int
-	step     int
-	tagN     int
-	lapseEnd int64
-	held     []heldBytes // byte slices received from (or passed to) Forward earlier, with what they must still hold
-	heldRes  []heldBytes // blobs of listed identities and signatures handed out earlier
+	handedOut []ssh.PublicKey // public key objects of the signers the latest Signers call returned
+	m         map[string]*mcert
+	locked    bool   // the shim's lock flag (model)
+	klocked   bool   // the keyring's own lock state (known: the harness performs every direct operation)
+	kpass     []byte // passphrase the keyring is locked with
+	snapOK    bool   // no direct manipulation happened since the shim was locked
+	preLock   []ident
+	lastU     []ident
+	closed    bool
+	hung      bool
+	dbgSeen   int
+	step      int
+	tagN      int
+	lapseEnd  int64
+	held      []heldBytes // byte slices received from (or passed to) Forward earlier, with what they must still hold
+	heldRes   []heldBytes // blobs of listed identities and signatures handed out earlier
 	// lastListed is the shim's latest successful listing (blob -> comment); preShim the listing taken just before the lock
 	lastListed map[string]string
 	preShim    map[string]string
@@ -925,8 +926,12 @@ func (e *Engine) opSigners() {
 		return
 	}
 	listed := map[string]int{}
+	e.handedOut = nil
 	for _, s := range sg {
 		listed[string(s.PublicKey().Marshal())]++
+		if len(e.handedOut) < 6 {
+			e.handedOut = append(e.handedOut, s.PublicKey())
+		}
 	}
 	e.checkListing(ub, t0, t1, listed, "Signers")
 	e.checkPurgeU(ub, ua, t0, t1, "Signers", nil)
@@ -1244,6 +1249,19 @@ func (e *Engine) opRemove() {
 		e.checkUnchanged(ub, ua, "remove while locked")
 		if mc, ok := e.m[blob]; ok && !mc.maybe {
 			e.St.Ops["locked remove naming an in-memory hardware certificate"]++
+		}
+		// the same request naming identities by the very objects the shim handed out (the public keys of the signers
+		// of an earlier Signers call): whatever the type of the value, the agent is locked
+		for _, pk := range e.handedOut {
+			ub2 := e.snapshotU()
+			err2 := e.Shim.Remove(pk)
+			e.log("remove", "handed-out public key object "+e.describe(string(pk.Marshal())), errStr(err2))
+			e.St.LockedOps++
+			if err2 == nil {
+				e.disc([]string{"C08"}, "locked-remove-succeeds:naming-a-handed-out-public-key-object", e.describe(string(pk.Marshal())))
+			}
+			e.checkUnchanged(ub2, e.snapshotU(), "remove while locked")
+			e.St.Ops["locked remove naming a public key object handed out before the lock"]++
 		}
 		return
 	}
